@@ -7,6 +7,7 @@ use clap::Command;
 enum Op { Parse(usize), Build, Help, LongHelp, Usage, Clone }
 
 fn run_parse(cmd: &mut Command, argv: &[Vec<u8>]) -> (String, String) {
+    let _guard = RealCall::new(&format!("{} argv={:?}", cmd.get_name(), argv.iter().map(|a| String::from_utf8_lossy(a).to_string()).collect::<Vec<_>>()));
     let r = std::panic::catch_unwind(std::panic::AssertUnwindSafe(|| cmd.try_get_matches_from_mut(argv_os(argv))));
     match r {
         Err(_) => ("PANIC".into(), String::new()),
